@@ -109,7 +109,7 @@ def wide_family(ck, quick, rng):
     ck.extra.setdefault("mc", []).append({"module": "MC_BigArith", "states": r.distinct, "ok": r.ok})
     if not r.ok:
         ck.violation("MC:MC_BigArith:" + str(r.violated), r.out[-2500:], {"tlc": r.out[-6000:]})
-    n = 600 if quick else 40000
+    n = 600 if quick else 5000
     cases = []
     while len(cases) < n:
         t, text = gen_big(rng, rng.choice([1, 1, 2, 2, 3]))
